@@ -196,6 +196,18 @@ def parse_print(block):
     return out
 
 
+STACKLINE = re.compile(r'^<\d+>\t([0-9a-f]*)')
+
+
+def parse_stack(block):
+    out = []
+    for l in block.split('\n'):
+        m = STACKLINE.match(l.rstrip('\r'))
+        if m:
+            out.append(m.group(1))
+    return out
+
+
 def case_json(case):
     return c04.case_json(case)
 
@@ -204,9 +216,10 @@ def check_session(case, ctx):
     sess, hist = case
     lines, what, scripts = expected_listing(sess, None)
     multi = len(scripts) > 1 or any(w[0] == 'tce' for w in what)
-    cmds = ['print']
+    # per position: print, stack, altstack, vfexec (QN = 4 query commands), preceded by the history command itself
+    cmds = ['print', 'stack', 'altstack', 'vfexec']
     for c in hist:
-        cmds += ['step' if c == 's' else 'rewind', 'print']
+        cmds += ['step' if c == 's' else 'rewind', 'print', 'stack', 'altstack', 'vfexec']
     # ground truth first: a session the tool refuses to set up is not a session
     g0 = harness().req(c04.session_req(sess, [], False))
     if 'log' not in g0:
@@ -230,14 +243,27 @@ def check_session(case, ctx):
     ctx.count('kind:' + sess['kind'])
     ntce = sum(1 for w in what if w[0] == 'tce')
     # phase tracking: the harness dump tells the current script length; map it to the phase
-    prints = [parse_print(blocks[2 * k + 1]) for k in range(len(hist) + 1)]
-    echoes = [None] + [blocks[2 * k] for k in range(1, len(hist) + 1)]
+    # block layout: [banner] then per position k: (k>0: echo of the history command), print, stack, altstack, vfexec
+    def blk(k, q):
+        return blocks[1 + q] if k == 0 else blocks[4 + 5 * (k - 1) + 2 + q]
+    prints = [parse_print(blk(k, 0)) for k in range(len(hist) + 1)]
+    echoes = [None] + [blocks[4 + 5 * (k - 1) + 1] for k in range(1, len(hist) + 1)]
+    stacks = [(parse_stack(blk(k, 1)), parse_stack(blk(k, 2)), parse_stack(blk(k, 3))) for k in range(len(hist) + 1)]
     failed_step = False
     for k, (pl, d) in enumerate(zip(prints, dumps)):
         if k > 0 and g['log'][k - 1]['c'] == 's' and not g['log'][k - 1]['acc'] and not dumps[k - 1]['done']:
             failed_step = True
         if failed_step:
             break          # after a failing step the position is unspecified (outside the property's domain)
+        # the interactive stack / altstack / vfexec commands tell the same story as the state the harness replay reaches
+        st_main, st_alt, st_vf = stacks[k]
+        if d['tce'] == 0:
+            if st_main != list(reversed(d['st'])) or st_alt != list(reversed(d['alt'])):
+                raise Violation(case, '`stack` / `altstack` after %d commands show %r / %r, the session state is %r / %r (top first)' % (k, st_main[:4], st_alt[:4], list(reversed(d['st']))[:4], list(reversed(d['alt']))[:4]),
+                                observed=[st_main[:6], st_alt[:6]], expected=[list(reversed(d['st']))[:6], list(reversed(d['alt']))[:6]])
+            want_vf = ['01' if ch == '1' else '00' for ch in reversed(d['vf'])]
+            if st_vf != want_vf:
+                raise Violation(case, '`vfexec` after %d commands shows %r, the conditional state is %r (innermost first)' % (k, st_vf, want_vf), observed=st_vf, expected=want_vf)
         texts = [t for _, t, _ in pl]
         if texts != lines:
             bad = next((i for i in range(min(len(texts), len(lines))) if texts[i] != lines[i]), min(len(texts), len(lines)))
